@@ -374,21 +374,26 @@ func (y *c05Sys) Check(s *c05State) *engine.Violation {
 			gap = true
 		}
 	}
-	if len(s.outs2) == 1 {
-		f2, err := s.w.HK.IsFinalized(s.ctx, 2, 1)
-		if err != nil {
-			return viol("stored-output-readable", "bridge 2: %v", err)
+	{
+		f2 := false
+		if len(s.outs2) == 1 {
+			var err error
+			f2, err = s.w.HK.IsFinalized(s.ctx, 2, 1)
+			if err != nil {
+				return viol("stored-output-readable", "bridge 2: %v", err)
+			}
+			if f2 && !now.After(s.outs2[0].Add(y.period2).Add(-time.Second)) {
+				return tagged(viol("no-finalization-before-the-window", "bridge 2 (period %s): IsFinalized(1) true at %s; proposed at %s", y.period2, now.Sub(world.L1GenesisTime), s.outs2[0].Sub(world.L1GenesisTime)), "bridge", "2")
+			}
 		}
-		if f2 && !now.After(s.outs2[0].Add(y.period2).Add(-time.Second)) {
-			return tagged(viol("no-finalization-before-the-window", "bridge 2 (period %s): IsFinalized(1) true at %s; proposed at %s", y.period2, now.Sub(world.L1GenesisTime), s.outs2[0].Sub(world.L1GenesisTime)), "bridge", "2")
-		}
+		// also with no output of its own (the query must not wander into another bridge's log)
 		r2, err := s.w.Q.LastFinalizedOutput(s.ctx, &ophosttypes.QueryLastFinalizedOutputRequest{BridgeId: 2})
 		want := uint64(0)
 		if f2 {
 			want = 1
 		}
 		if err != nil || r2.OutputIndex != want {
-			return viol("last-finalized-query-names-highest-final", "bridge 2: LastFinalizedOutput=%v, expected %d (err=%v)", r2, want, err)
+			return tagged(viol("last-finalized-query-names-highest-final", "bridge 2: LastFinalizedOutput=%v, expected %d (err=%v)", r2, want, err), "bridge", "2")
 		}
 	}
 	resp, err := s.w.Q.LastFinalizedOutput(s.ctx, &ophosttypes.QueryLastFinalizedOutputRequest{BridgeId: 1})
